@@ -3,6 +3,7 @@
 import json, os
 V = "/verif/seeded"
 WHAT = {
+ "C17-e": "`if d_psi_sq:` instead of `is not None`: an exactly zero window average (the stationary state) never updates the tentative step",
  "C08-e": "Device.copy() no longer forwards length_units: every clone (also the one a Solution stores) is a 'um' device",
  "C11-e": "the |psi|^2 returned by the kernel is cached on the solver and re-used as the next step's input (state that a saved frame does not hold)",
  "C15-e": "DataHandler.__exit__ formats exc_value.args[0]: a message-less exception raises IndexError before the files are closed",
